@@ -102,3 +102,27 @@ crate::proof!{ #[kani::unwind(4)] fn c07_q_depthmap_limit2_compact() { skip::ski
 crate::proof!{ #[kani::unwind(4)] fn c07_q_depthmap_limit3_compact() { skip::skip_depth_map::<PCompact, 3>() } }
 crate::proof!{ #[kani::unwind(4)] fn c07_t_depthmap_limit2_bin() { skip::skip_depth_map::<PBin, 2>() } }
 crate::proof!{ #[kani::unwind(4)] fn c07_t_depthmap_limit3_bin() { skip::skip_depth_map::<PBin, 3>() } }
+
+// (a') concrete-leaf container shapes through the compact skipper (and binary as a cross-check of
+// the harness itself): candidates, registered by calibration
+macro_rules! sc {
+    ($tier:ident, $shape:ident, $p:ty, $pn:ident, $unw:expr) => { paste! {
+        crate::proof!{ #[kani::unwind($unw)] fn [<c07_ $tier _concrete_ $shape:lower _ $pn>]() { skip::skip_concrete::<$p, {skip::$shape}>() } }
+    }};
+}
+sc!(q, V_LIST_I32_2, PCompact, compact, 4);
+sc!(q, V_MAP_I8_BIN, PCompact, compact, 4);
+sc!(q, V_STRUCT_NEST, PCompact, compact, 4);
+sc!(t, V_UUID, PCompact, compact, 17);
+sc!(t, V_BINARY2, PCompact, compact, 4);
+sc!(t, V_LIST_EMPTY, PCompact, compact, 4);
+sc!(t, V_LIST_BIN_1, PCompact, compact, 4);
+sc!(t, V_LIST_BOOL_2, PCompact, compact, 4);
+sc!(t, V_LIST_STRUCT, PCompact, compact, 4);
+sc!(t, V_SET_I8_2, PCompact, compact, 4);
+sc!(t, V_SET_EMPTY_BIN, PCompact, compact, 4);
+sc!(t, V_MAP_EMPTY, PCompact, compact, 4);
+sc!(t, V_MAP_I16_I64, PCompact, compact, 12);
+sc!(t, V_STRUCT_FLAT, PCompact, compact, 5);
+sc!(t, V_STRUCT_EMPTY, PCompact, compact, 4);
+sc!(t, V_LIST_I32_2, PBin, bin, 4);
